@@ -98,10 +98,14 @@ def history(rng, inst, n):
         if r < 0.25:
             recs = []
             for a in rng.sample(acs, rng.randint(1, len(acs))):
-                recs.append(dict(id=a, power=rng.choice([0, 1]), mode=rng.choice(range(5)), fan=rng.choice(range(7)), spill=rng.choice([0, 1]),
+                recs.append(dict(id=a, power=rng.choice([0, 1]), mode=rng.choice([0, 1, 2, 3, 4, 8, 9, 8, 9]), fan=rng.choice(range(7)), spill=rng.choice([0, 1]),
                                  timer=rng.choice([0, 1]), setpoint=rng.randint(*lim[a]), temp=rng.choice([235, 0, -55, 301, 999, 180]),
                                  err=rng.choice([0, 0, 0, 5, 7, 300])))
             steps.append(("ac", recs))
+            if rng.random() < 0.3:
+                # the same report again with only the automatic sub-mode changed (auto <-> auto-heat <-> auto-cool): nothing else moves
+                again = [dict(x, mode={0: 8, 8: 9, 9: 8}.get(x["mode"], x["mode"])) for x in recs]
+                steps.append(("ac", again))
         elif r < 0.5 and zs:
             recs = []
             for z in rng.sample(zs, rng.randint(1, min(len(zs), 4))):
